@@ -217,7 +217,33 @@ def scalar_watch_leg(c, wd):
     sys.modules.pop(mod.__name__, None)
 
 
-TYPED_HOST = '''import enum
+TYPED_HOST = '''import collections
+import enum
+
+
+class Basket(list):
+    pass
+
+
+class Settings(dict):
+    pass
+
+
+class traceback:
+    def __init__(self, v):
+        self.v = v
+
+    def __str__(self):
+        return 'tb-text'
+
+
+class module(traceback):
+    pass
+
+
+class list_iterator(traceback):
+    pass
+
 
 
 class Level(enum.IntEnum):
@@ -246,6 +272,15 @@ def typed(n):
     count = Count(7)
     count.source = 'sensor'
     huge = 10 ** 5000
+    basket = Basket([1, 2])
+    basket.owner = 'ann'
+    settings = Settings(debug=1)
+    settings.path = '/etc/app.ini'
+    recent = collections.OrderedDict([('a', 1), ('b', 2), ('c', 3)])
+    recent.move_to_end('a')
+    tb = traceback('x')
+    mo = module('y')
+    it = list_iterator('z')
     return n  # TP:typed
 '''
 
@@ -282,6 +317,20 @@ def typed_objects_leg(c, wd):
                 if attr is None and not kids:
                     bad = 'local %s (an enum member) shows no attributes at all' % name
                     break
+            # application classes derived from the builtin containers: the elements AND the object's own attributes
+            for name, kids_want in (('basket', ['0', '1', 'owner']), ('settings', ['debug', 'path']),
+                                    # an OrderedDict is shown in ITS order (an LRU cache after a hit)
+                                    ('recent', ['b', 'c', 'a']),
+                                    # application classes that are merely NAMED like types without children
+                                    ('tb', ['v']), ('mo', ['v']), ('it', ['v'])):
+                v = by.get(name)
+                kids = [ch.name for ch in v.children] if v is not None else None
+                if not bad and kids != kids_want:
+                    bad = 'local %s (%s) shows the children %s, it has %s' % (name, v.type if v else None, kids, kids_want)
+            for name in ('tb', 'mo', 'it'):
+                v = by.get(name)
+                if not bad and (v is None or v.value != 'tb-text'):
+                    bad = 'local %s (an application class named %s) shows the text %r' % (name, v.type if v else None, v.value if v else None)
             # a number with more digits than the interpreter converts to decimal text by default (str() raises for it):
             # still a number whose VALUE is shown - in decimal or in hexadecimal, cut to the string limit
             v = by.get('huge')
